@@ -49,7 +49,7 @@ def systematic(tier):
 def gen_program(rng, depth, children_pool):
     cfg = {'max_steps': 3, 'p_async': 0.8, 'max_awaits': 2, 'rets': ['value', 'value', 'stop', 'raise', 'kill'],
            'effects': ['out', 'callsoon', 'status'], 'p_wait': 0.2, 'durations': [0, 0.5, 1, 1.5, 2],
-           'selfacts': ['pause'], 'p_selfact': 0.15}
+           'selfacts': ['pause'], 'p_selfact': 0.15, 'coro_callbacks': True}
     program = programs.gen_process_program(rng, cfg)
     program['children'] = []
     if depth > 0:
@@ -59,7 +59,7 @@ def gen_program(rng, depth, children_pool):
             for group in step['effects']:
                 if rng.random() < 0.3:
                     serial += 1
-                    group.append({'e': 'callsoon_parent', 'id': f'{depth}.{serial}'})
+                    group.append({'e': 'callsoon_parent', 'id': f'{depth}.{serial}', 'coro': rng.random() < 0.5})
     if depth < 2:
         for step in program['steps']:
             for group in step['effects']:
@@ -147,6 +147,19 @@ def run(case):
             proc._sim_label = f'p{index}'
             procs.append(proc)
             loop.call_later(case['starts'][index], lambda proc=proc: loop.create_task(proc.step_until_terminated()))
+            # callbacks scheduled on the process by plain code (no process on the stack), a function and a coroutine function
+            def plain(proc=proc):
+                world.rec('callback', programs.label(proc), 'env', plumpy.Process.current() is proc, proc.state.value)
+
+            async def coro(proc=proc):
+                import asyncio
+                world.rec('callback', programs.label(proc), 'env-coro', plumpy.Process.current() is proc, proc.state.value)
+                await asyncio.sleep(0)
+                world.rec('callback', programs.label(proc), 'env-coro+', plumpy.Process.current() is proc, proc.state.value)
+
+            if index % 2 == 0:
+                proc.call_soon(plain)
+            proc.call_soon(coro)
         interrupted = set()
         for _ in range(200):
             loop.run_until_quiescent()
